@@ -232,6 +232,9 @@ func main() {
 	case err != nil && s.ExpectError:
 		fmt.Fprintln(os.Stderr, "expected error:", err)
 		os.Exit(0)
+	case err != nil && s.ErrorAllowed:
+		fmt.Fprintln(os.Stderr, "allowed error:", err)
+		os.Exit(4)
 	case err != nil:
 		fmt.Fprintln(os.Stderr, "operation failed:", err)
 		os.Exit(3)
